@@ -954,7 +954,9 @@ def dec2hp(dec):
     # are between 256 and 512 degrees. Precision improves for smaller angles.
     # In calculating the variable 'second' the precision is degraded by a factor of 3600 
     # Therefore 'second' should be rounded to 9 DP and tested for carry.
-    if round(second, 9) == 60:
+    # (from 512 degrees the HP value, a double, carries one decimal less)
+    ndp = 9 if degree < 512 else 8
+    if round(second, ndp) == 60:
         second = 0
         minute += 1
     if minute == 60:
@@ -965,7 +967,7 @@ def dec2hp(dec):
     # a string will be built to represent a sexagesimal number and then converted to float
     degree = f'{int(degree)}'
     minute = f'{int(minute):02}'
-    second = f'{second:012.9f}'.rstrip('0').replace('.', '')
+    second = f'{second:0{ndp + 3}.{ndp}f}'.rstrip('0').replace('.', '')
     
     hp_string = f'{degree}.{minute}{second}'
     hp = float(hp_string)
